@@ -72,6 +72,7 @@ type RouteConfig struct {
 	FaultAt     []int // decision from which the k-th fault may fire (faults spread over the run instead of all landing at its start)
 	NoAck       map[string]bool
 	LateOpen    map[string]int
+	LateGen     map[string]int // decision before which a shard generates no task (a source that is idle at first: watermark-only batches)
 }
 
 type srcTask struct {
@@ -135,6 +136,7 @@ type ackRound struct {
 	prevW     int64
 	nTracked  int // number of tasks the target had accepted when it emitted this ack
 	delivered map[ShardID]int64
+	attempted map[ShardID]int64 // translations handed to DeliverAckToShardOwner (recorded at the call, before it returns)
 	checked   bool
 }
 
@@ -276,6 +278,7 @@ func drawRouteConfig(s *simrt.Sim, prof RouteProfile) RouteConfig {
 	}
 	c.NoAck = map[string]bool{}
 	c.LateOpen = map[string]int{}
+	c.LateGen = map[string]int{}
 	for cl := clusterA; cl <= clusterB; cl++ {
 		n := c.NA
 		if cl == clusterB {
@@ -288,6 +291,9 @@ func drawRouteConfig(s *simrt.Sim, prof RouteProfile) RouteConfig {
 			}
 			if s.Draw(3) == 2 {
 				c.LateOpen[name] = 50 + s.Draw(8)*100
+			}
+			if s.Draw(4) == 3 {
+				c.LateGen[name] = 100 + s.Draw(8)*100
 			}
 		}
 	}
@@ -432,7 +438,10 @@ func NewRouteWorld(s *simrt.Sim, prof RouteProfile) *RouteWorld {
 	}
 	for cl := clusterA; cl <= clusterB; cl++ {
 		for i := 1; i <= w.count(cl); i++ {
-			w.shards[cl] = append(w.shards[cl], &shardModel{cluster: cl, id: int32(i), nextID: 10, ackLevel: 0})
+			// task ids of different shards live in unrelated ranges; a low range puts a source's
+			// ids below the proxy ids that accumulate on a busy target stream, a high one far above
+			base := []int64{10, 10, 1, 1000}[s.Draw(4)]
+			w.shards[cl] = append(w.shards[cl], &shardModel{cluster: cl, id: int32(i), nextID: base, ackLevel: 0})
 		}
 	}
 	return w
@@ -693,7 +702,7 @@ func (w *RouteWorld) c04Sig(c *srcConn, t *srcTask, k taskKey) string {
 			// task was translated, for this source, to a value above the task and not above what the
 			// previous incarnations had delivered
 			for _, r := range tc.rounds {
-				if v, ok := r.delivered[k.src]; ok && v > k.id && r.w <= minLive && v <= c.sh.prevHigh {
+				if v, ok := r.attempted[k.src]; ok && v > k.id && r.w <= minLive && v <= c.sh.prevHigh {
 					return "resent-behind-stale-entry-after-source-restart"
 				}
 			}
@@ -1164,7 +1173,7 @@ func (w *RouteWorld) Actions() []simrt.Action {
 			}
 		}
 		// --- source role ---
-		if w.emitsTasks(sh.cluster) && len(sh.log) < w.cfg.MaxTasks && w.phase == 0 {
+		if w.emitsTasks(sh.cluster) && len(sh.log) < w.cfg.MaxTasks && w.phase == 0 && w.s.Stats.Decisions >= w.cfg.LateGen[sh.name()] {
 			add("gen:"+sh.name(), 3, false, func() { w.genTasks(sh) })
 		}
 		if sc := sh.src; sc != nil && !sc.closed {
@@ -1329,8 +1338,19 @@ func (w *RouteWorld) endChecks() {
 		return
 	}
 	if w.prof.Multi && !w.tailOK {
-		// the tail did not complete: that is the liveness clause's finding; "never reached a
-		// target" cannot be told from "not yet" here
+		// the tail did not complete, so "never reached a target" cannot be told from "not yet":
+		// what can be said is that a task the proxy had read when the tail began was not put on
+		// any target stream during 120 virtual seconds of fault-free fair execution with state
+		// merges every 30 s - C02's "is sent ... on the stream of the target shard that owns it"
+		for _, sh := range w.allShards() {
+			for _, t := range sh.log {
+				k := taskKey{sh.sid(), t.id}
+				if w.toProxy[k] && len(w.deliveries[k]) == 0 {
+					w.violate("C02", "not-delivered", "task %s/%d was read by the proxy but was not delivered to any target stream within %v of fault-free fair execution", sidStr(k.src), k.id, w.s.Now()-w.tailStart)
+					return
+				}
+			}
+		}
 		return
 	}
 	for _, sh := range w.allShards() {
@@ -1414,23 +1434,34 @@ func (w *RouteWorld) registryChecks() {
 		}
 	}
 	if !w.tailOK {
-		sig := ""
-		for _, sh := range w.allShards() {
-			for _, kind := range []string{"shard", "send", "ack"} {
-				if s := w.staleRegisteredLate(sh, kind); s != "" {
-					sig = s
-				}
-			}
-		}
-		// a target stream's ack loop sits in DeliverAckToShardOwner, blocked on the full queue of a
-		// source receiver that has ended (it only selects on its own shutdown signal)
-		for _, lt := range w.s.LiveTasks() {
-			if strings.Contains(lt, "@DeliverAckToShardOwner[blocked]") {
-				sig = "ack-hand-off-blocked-on-ended-receiver"
-			}
+		sig := w.trafficSig()
+		// the same observation under C03's liveness clause: once the faults have stopped the
+		// premise (targets acknowledge, sources send their watermark) holds again
+		if w.anyFault {
+			w.violateSig("C03", "liveness-after-faults", sig, "after the stream faults stopped, %v of fault-free fair execution did not bring every source an acknowledgement of its final high watermark: %s", w.s.Now()-w.tailStart, w.tailStatus())
 		}
 		w.violateSig("C08", "traffic-does-not-flow", sig, "after the churn stopped, %v of fault-free fair execution did not bring every source an acknowledgement of its final high watermark through the newest incarnations: %s; live tasks: %v", w.s.Now()-w.tailStart, w.tailStatus(), w.s.LiveTasks())
 	}
+}
+
+// trafficSig classifies a tail that did not complete after faults by the two known causes.
+func (w *RouteWorld) trafficSig() string {
+	sig := ""
+	for _, sh := range w.allShards() {
+		for _, kind := range []string{"shard", "send", "ack"} {
+			if s := w.staleRegisteredLate(sh, kind); s != "" {
+				sig = s
+			}
+		}
+	}
+	// a target stream's ack loop sits in DeliverAckToShardOwner, blocked on the full queue of a
+	// source receiver that has ended (it only selects on its own shutdown signal)
+	for _, lt := range w.s.LiveTasks() {
+		if strings.Contains(lt, "@DeliverAckToShardOwner[blocked]") {
+			sig = "ack-hand-off-blocked-on-ended-receiver"
+		}
+	}
+	return sig
 }
 
 type untilWorld struct {
@@ -1587,6 +1618,15 @@ func (r recSM) SetLocalAckChan(sh ShardID, ch chan proxy.RoutedAck) {
 }
 
 func (r recSM) DeliverAckToShardOwner(src ShardID, ra *proxy.RoutedAck, sc channel.ShutdownOnce, lg log.Logger, ack int64, fwd bool) bool {
+	// the receiving side may act on the ack before this call returns: note the attempt first
+	if tsh := r.w.shard(ra.TargetShard); tsh != nil && tsh.tgt != nil && callerIncarnation() == tsh.tgt.st.Name {
+		if n := len(tsh.tgt.rounds); n > 0 {
+			if tsh.tgt.rounds[n-1].attempted == nil {
+				tsh.tgt.rounds[n-1].attempted = map[ShardID]int64{}
+			}
+			tsh.tgt.rounds[n-1].attempted[src] = ack
+		}
+	}
 	ok := r.ShardManager.DeliverAckToShardOwner(src, ra, sc, lg, ack, fwd)
 	r.w.s.Log("translate: stream of %s -> source %s value %d delivered=%v", sidStr(ra.TargetShard), sidStr(src), ack, ok)
 	if ok {
